@@ -8,6 +8,7 @@ it is unsatisfiable (Thapen's CPLS principle).  Sections: 1 logarithms, 2 pure a
 import CnfgenModel.Fam.Cpls
 import Lemmas.Linear
 import Lemmas.Constr
+import Lemmas.VarsBinary
 namespace Cnfgen.FamCpls
 open Cnfgen Cnfgen.Fam
 
@@ -16,16 +17,10 @@ open Cnfgen Cnfgen.Fam
 theorem lt_two_pow_self' (p : Nat) : p < 2 ^ p := Nat.lt_two_pow_self
 
 theorem clog2_two_pow (p : Nat) : Vars.clog2 (2 ^ p) = p := by
-  unfold Vars.clog2
-  have h : (List.range (2 ^ p + 1)).find? (fun b => decide (2 ^ p ≤ 2 ^ b)) = some p := by
-    rw [List.find?_range_eq_some]
-    refine ⟨by simp, ?_, ?_⟩
-    · have := lt_two_pow_self' p
-      simp; omega
-    · intro j hj
-      have : 2 ^ j < 2 ^ p := Nat.pow_lt_pow_right (by omega) hj
-      simp; omega
-  rw [h]; rfl
+  obtain ⟨h1, h2⟩ := Vars.clog2_spec (2 ^ p)
+  have hle : Vars.clog2 (2 ^ p) ≤ p := h2 p (Nat.le_refl _)
+  have hge : p ≤ Vars.clog2 (2 ^ p) := (Nat.pow_le_pow_iff_right (by omega)).1 h1
+  omega
 
 theorem intlog2Aux_two_pow (p : Nat) : ∀ (fuel i : Nat), i ≤ p → p ≤ i + fuel →
     Cpls.intlog2Aux (2 ^ p) fuel i = p := by
